@@ -179,7 +179,8 @@ def c_los(site: Site, L):
 
 
 def c_el(L, el_mask):
-    lo, hi = float(el_mask[0]), float(el_mask[1])
+    """The elevation range is documented as an ORDER-INDEPENDENT pair (SensorConfigBase.elevation_range)."""
+    lo, hi = sorted((float(el_mask[0]), float(el_mask[1])))
     return tri(min(L["el"] - lo, hi - L["el"]), REL)
 
 
